@@ -781,10 +781,19 @@ func (bc *Blockchain) jumpToStateInternal(p uint32, stage stateChangeStage) erro
 			return fmt.Errorf("failed to get dao.Version: %w", err)
 		}
 		v.StoragePrefix = newPrefix
-		bc.dao.PutVersion(v)
+		// The new version and the next stage marker must reach the write cache in one
+		// step: the persisting routine can flush the cache at any moment, and a new version
+		// under the old marker makes the restarted jump switch the prefix back.
+		batch := bc.dao.GetPrivate()
+		batch.PutVersion(v)
+		batch.Store.Put(jumpStageKey, []byte{byte(newStorageItemsAdded)})
+		_, err = batch.Persist()
+		if err != nil {
+			return fmt.Errorf("failed to store %d stage of state jump: %w", stateJumpStarted, err)
+		}
+		bc.dao.Version = v
 		bc.persistent.Version = v
 
-		bc.dao.Store.Put(jumpStageKey, []byte{byte(newStorageItemsAdded)})
 		_, err = bc.dao.Store.Persist()
 		if err != nil {
 			return fmt.Errorf("failed to persist %d stage of state jump: %w", stateJumpStarted, err)
